@@ -622,8 +622,10 @@ func (c *Client) PerformTransaction(msg *stun.Message, to net.Addr, ignoreResult
 	if err != nil {
 		// Nobody will wait for this transaction: take it out of the table again,
 		// or a late response with its ID would block the read loop forever.
+		// Its own entry only: it may be complete already (a response came in
+		// while the write was stuck) and the ID in use by a later transaction.
 		c.mutexTrMap.Lock()
-		c.trMap.Delete(trKey)
+		c.trMap.DeleteIf(trKey, tr)
 		c.mutexTrMap.Unlock()
 
 		return client.TransactionResult{}, err
